@@ -1,3 +1,4 @@
+mod bridge;
 mod c01;
 mod c13;
 
